@@ -291,6 +291,14 @@ def rule_D(ctx):
             args.update(switches)
             orders.make_func(g.node, funcs)(**args)
             n_cases += 1
+            # every track given is decoded: a track that no decoder run ever sees keeps observations that are neither matched nor flagged unmatched
+            decoded = [c_[0] for h in hmms for c_ in h.calls]
+            left_out = [tname for tname in ('T1', 'T2') if not any(d_ is trs[tname] for d_ in decoded)]
+            if left_out:
+                tn = left_out[0]
+                bad = ('sentinel', 'every track given is decoded: each of its observations ends up matched or flagged unmatched',
+                       {'track never handed to the decoder': tn, 'neighbourhoods of its observations': [op[0] for op in plan[tn]], 'switches': dict(switches)})
+                break
             if len(hmms) != 2 or any(len(h.calls) != 1 or h.calls[0][2] is None for h in hmms):
                 raise shape_error('mapOnNetwork: the decoder is not created, given a state function and run exactly once per track', f.loc())
             for tname, h in zip(('T1', 'T2'), hmms):
@@ -535,7 +543,8 @@ def rule_I(ctx):
             S = [0.0]
             for a_, b_ in zip(pts, pts[1:]):
                 S.append(S[-1] + math.hypot(b_[0] - a_[0], b_[1] - a_[1]))
-            g = T([absint.real_obs(ctx, fn, EN(x_, y_, 0.0)) for x_, y_ in pts], 'u', 't')
+            # (the vertices carry altitudes - network geometries read from 'x y z' text do; the candidate point is at altitude 0: distances are planimetric)
+            g = T([absint.real_obs(ctx, fn, EN(x_, y_, 35.0 + 4.0 * k_)) for k_, (x_, y_) in enumerate(pts)], 'u', 't')
             g.call('createAnalyticalFeature', 'abs_curv', list(S))
             for i in range(len(pts) - 1):
                 (x1, y1), (x2, y2) = pts[i], pts[i + 1]
